@@ -144,6 +144,11 @@ CONCRETE_MENU = {
     'eq_diff': ('eq', {('a',): 1, ('b',): -1}, True),
     'ne_diff': ('ne', {(0,): 1, ('b',): -1}, True),
     'ne_nolog': ('ne', {(0,): 1, ('b',): -2, (): 1}, False),
+    # always satisfied (boolean and spin): nothing to penalise, but the record must stay consistent
+    'lt_trivial': ('lt', {('b',): -1, (): -2}, True),
+    'gt_trivial': ('gt', {('b',): 1, (): 2}, False),
+    'le_trivial': ('le', {('b',): 1, (0,): 1, (): -2}, True),
+    'ge_trivial': ('ge', {('b',): 1, (): 1}, True),
 }
 
 
